@@ -539,3 +539,27 @@ def run_base(chk, idx, consts):
                   % (t, ('days', 'weeks', 'months', 'years')[t], got.get(t), want), tab.lineno)
     ctl = ast.parse("def luis_time_span(begin_time, end_time):\n    span = end_time - begin_time\n    h, r = divmod(span.seconds, 3600)\n    return f'PT{h}M'\n").body[0]
     chk.control('C10.timespan', MiniEval(idx).call(ctl, [b, b + _dt.timedelta(hours=2)]) != 'PT2H')
+
+
+
+# ---------------------------------------------------------------------------------------------------------------
+# generic rules (lead): cross-cutting necessary conditions scoped to the modules this property is anchored in
+# (sa/generic.py: filter predicates depend on their element; regex group names read by the code exist)
+
+def _generic_rules(chk):
+    import re as _re_
+    from ..index import get_index as _gi
+    from ..consteval import Resources as _Res
+    from .. import generic as _g
+    idx_ = _gi()
+    scope = _re_.compile('^(base_)?(duration|timeperiod|datetimeperiod)')
+    flt = lambda name: bool(scope.search(name.rsplit('.', 1)[-1]))
+    _g.rule_group_names(chk, idx_, _Res(idx_), 'C10.groups', 'recognizers_date_time', flt, floor=3)
+
+
+_run_before_generic = run
+
+
+def run(chk):       # noqa: F811
+    _run_before_generic(chk)
+    _generic_rules(chk)
